@@ -222,8 +222,10 @@ type ChunkWriter struct {
 
 // WriteChunk is called with chunked ServiceInfos.
 func (w *ChunkWriter) WriteChunk(kv *KV) error {
-	// If the key hasn't changed, keep streaming data
-	if kv.Key == w.prevKey {
+	// If the key hasn't changed, keep streaming data. Before the first chunk
+	// there is no writer yet, whatever the key is (it may be empty, which is
+	// what prevKey starts as).
+	if kv.Key == w.prevKey && w.w != nil {
 		_, err := w.w.Write(kv.Val)
 		return err
 	}
